@@ -396,7 +396,31 @@ def _mk():
     def b_next(it, a, k, n):
         from .values import Maybe, OneShot
 
+        from .values import GenV, LiveIter
+
         src = a[0]
+        if isinstance(src, GenV):
+            kind_, v_ = it.gen_next(src)
+            if kind_ == "yield":
+                return v_
+            if kind_ == "raise":
+                return BOTTOM
+            if len(a) > 1:
+                return a[1]
+            it.log("raise", n, exc="StopIteration")
+            return BOTTOM
+        if isinstance(src, LiveIter):
+            if not src.done:
+                nxt = src.live.after(src.cur) if src.started else src.live.first()
+                src.started = True
+                if nxt is not None:
+                    src.cur = nxt
+                    return nxt
+                src.done = True
+            if len(a) > 1:
+                return a[1]
+            it.log("raise", n, exc="StopIteration")
+            return BOTTOM
         if not isinstance(src, OneShot):
             raise Unsupported("next() on a non-generator")
         rest = [] if src.consumed else list(src)[src.pos :]
@@ -513,9 +537,15 @@ def _mk():
     def b_iter(it, a, k, n):
         from .values import OneShot
 
+        from .values import LiveIter
+
         v = a[0]
-        if isinstance(v, OneShot):
+        from .values import GenV
+
+        if isinstance(v, (OneShot, LiveIter, GenV)):
             return v  # an iterator is its own iterator
+        if hasattr(v, "first") and hasattr(v, "after"):
+            return LiveIter(v)
         m_it = it.dunder(v, "__iter__") if isinstance(v, Obj) else None
         if m_it is not None:
             return b_iter(it, [it.call_function(m_it, [], {}, n)], k, n)
